@@ -72,7 +72,9 @@ def spec_input(sec_rows, init, at, case_rows=None):
             q = [src["sh"][1], src["aps"][1], com, rate, crate]
         elif src is not None and a == "RoC":
             q = [src["aps"][1], core.eff_rate(src.get("cur"), src.get("rate"))]
-        out += [0, 0, d["sd"], d["af"], int(bool(d["reg"])), 0, 0, 0]
+        # an affiliate id the numbering table does not know (only when the implementation's ids
+        # disagree with the case's: a correspondence difference, reported separately) gets a number of its own
+        out += [0, 0, d["sd"], d["af"] if isinstance(d["af"], int) else 999999, int(bool(d["reg"])), 0, 0, 0]
         if a == "Buy":
             out += [0] + sum((qenc(x) for x in q[:5]), [])
         elif a == "Sell":
